@@ -277,6 +277,9 @@ func doCall(kind, gen string, stateful bool, st *genState, c gengo.Context, obj 
 	case "render_defer_nested2":
 		render()
 		deferHelper("defer_nested2")
+	case "render_skip": // finds out that the type is to be skipped only after having rendered for it
+		render()
+		return gengo.ErrSkip
 	case "blank": // white space only
 		c.Render(snippet.Block("\n  \n\t\n"))
 	case "nothing_defer": // renders nothing itself; its deferred callback does
